@@ -116,7 +116,10 @@ def run_tlc(module: str, cfg: str | Path, work: Path, *, workers: int | str = "a
         cfg_path = work / f"{module}_{hashlib.sha1(cfg.encode()).hexdigest()[:8]}.cfg"
         cfg_path.write_text(cfg)
     meta = work / f"meta_{module}_{time.time_ns()}"
-    cmd = ["java", "-XX:+UseParallelGC", "-Xmx8g"]
+    # trace validation (workers == 1, small state spaces, many JVMs side by side) gets a small heap; model checking a big one.
+    # A global semaphore file is not used: the number of concurrent JVMs is bounded by the callers (pmap / chunks).
+    heap = os.environ.get("VERIF_TLC_HEAP") or ("1500m" if (workers == 1 and not simulate) else "6g")
+    cmd = ["java", "-XX:+UseSerialGC" if workers == 1 else "-XX:+UseParallelGC", f"-Xmx{heap}"]
     if dfs:
         cmd.append("-Dtlc2.tool.queue.IStateQueue=StateDeque")
     cmd += ["-cp", _classpath(), "tlc2.TLC", "-config", str(cfg_path), "-metadir", str(meta),
